@@ -207,3 +207,74 @@ def _rpo(succs, entry):
     sys.setrecursionlimit(10000)
     dfs(entry)
     return out[::-1]
+
+
+def nonescaping_slices(fn):
+    """names of MakeSlice results whose backing array cannot be reached by any callee or stored anywhere:
+    the value (and slices derived from it) is only indexed, sliced, measured, copied to/from, ranged over or merged.
+    Sound use: a callee's frame cannot include such an array (it has no way to name it)."""
+    cached = fn.get('_nonescaping')
+    if cached is not None:
+        return cached
+    instrs = [i for b in fn['blocks'] for i in b['instrs']]
+    makes = [i['name'] for i in instrs if i['op'] == 'MakeSlice' and 'name' in i]
+
+    def refs(o, name):
+        if isinstance(o, dict):
+            if o.get('k') == 'reg' and o.get('name') == name:
+                return True
+            return any(refs(v, name) for v in o.values())
+        if isinstance(o, list):
+            return any(refs(v, name) for v in o)
+        return False
+
+    def is_reg(o, name):
+        return isinstance(o, dict) and o.get('k') == 'reg' and o.get('name') == name
+
+    def ok_value(name, seen):
+        # every use of the slice value `name`
+        if name in seen:
+            return True
+        seen = seen | {name}
+        for i in instrs:
+            body = {k: v for k, v in i.items() if k != 'name'}
+            if not refs(body, name):
+                continue
+            op = i['op']
+            if op == 'DebugRef':
+                continue
+            if op == 'IndexAddr' and is_reg(i.get('x'), name) and not refs(i.get('index'), name):
+                if not ok_addr(i['name']):
+                    return False
+                continue
+            if op == 'Slice' and is_reg(i.get('x'), name):
+                if not ok_value(i['name'], seen):
+                    return False
+                continue
+            if op == 'Call' and i.get('callee', {}).get('k') == 'builtin' and i['callee'].get('name') in ('len', 'cap', 'copy'):
+                continue
+            if op == 'Range' or op == 'Phi':
+                if op == 'Phi' and not ok_value(i['name'], seen):
+                    return False
+                continue
+            return False
+        return True
+
+    def ok_addr(name):
+        for i in instrs:
+            body = {k: v for k, v in i.items() if k != 'name'}
+            if not refs(body, name):
+                continue
+            op = i['op']
+            if op == 'DebugRef':
+                continue
+            if op == 'Store' and is_reg(i.get('addr'), name) and not refs(i.get('val'), name):
+                continue
+            if op == 'UnOp' and i.get('tok') == '*':
+                continue
+            return False
+        return True
+
+    out = set(m for m in makes if ok_value(m, frozenset()))
+    fn['_nonescaping'] = out
+    return out
